@@ -4,7 +4,9 @@ const { product } = require('../lib/spaces');
 const { withModule, errStr } = require('../lib/evalmod');
 const { canonValue, diff, diffClass, stable, Names } = require('../lib/canon');
 
-const HOSTS = { Comp: 'Comp', Unbound: 'Unbound', member: 'ns.Comp' };
+// ShadowAlias: the module imports Vue's Fragment under the alias `Sh`, but the tag refers to a function parameter of
+// the same name (an ordinary component): classification must follow the binding, not the spelling
+const HOSTS = { Comp: 'Comp', Unbound: 'Unbound', member: 'ns.Comp', ShadowAlias: 'Sh' };
 // child shapes; `dyn` marks the ones whose treatment is decided at run time
 const SHAPES = {
   none:    { src: '' },
@@ -86,8 +88,9 @@ const PRELUDE = 'const { Comp, ns, x, y, xs, c, o, namedFn, vs, vsFoo, vsDefault
 function render(c) {
   const tag = HOSTS[c.host];
   const ch = SHAPES[c.shape].src;
-  const J = ch === '' ? `<${tag}${VSLOTS[c.vslots]} />` : `<${tag}${VSLOTS[c.vslots]}>${ch}</${tag}>`;
-  return PRELUDE + CTX[c.ctx].tpl(J) + '\n';
+  let J = ch === '' ? `<${tag}${VSLOTS[c.vslots]} />` : `<${tag}${VSLOTS[c.vslots]}>${ch}</${tag}>`;
+  if (c.host === 'ShadowAlias') J = `((Sh) => ${J})(Comp)`;
+  return (c.host === 'ShadowAlias' ? "import { Fragment as Sh } from 'vue';\n" : '') + PRELUDE + CTX[c.ctx].tpl(J) + '\n';
 }
 
 function optsJson(c) { return JSON.stringify({ enableObjectSlots: c.eos, optimize: c.opt }); }
